@@ -47,6 +47,9 @@ def obligations(tier):
     # a member swapped for one of the same name that reads another input (remove_indicator + add_indicator)
     for name, kw, n in (("MACD", dict(fast_period=2, slow_period=3, signal_period=2), 7), ("ROC", dict(period=2), 5), ("TSI", dict(period=2, smooth_period=2), 6)):
         obs.append(Ob(f"swap-input/{name}{kw}/close->open/n={n}", dict(spec=["ind", name, kw], n=n, input="open"), NL, fn="run_swap", weight=n * 3, budget_s=300))
+    # fed live under a candle lifespan (the head of the list is trimmed on every append once the window is full)
+    for name, kw, n, L in (("MACD", dict(fast_period=2, slow_period=3, signal_period=2), 10, 5), ("ROC", dict(period=2), 8, 4), ("OBV", dict(), 7, 3), ("STOCH", dict(period=2, slow_period=2, smoothing_k=2), 9, 5), ("TSI", dict(period=2, smooth_period=2), 9, 5), ("VWAP", dict(), 6, 3)):
+        obs.append(Ob(f"live under a {L}-minute lifespan/{name}{kw}/n={n}", dict(spec=["ind", name, kw], n=n, feed="live-lifespan", life_minutes=L, posvol=(name == "VWAP")), NL, weight=n * 5, budget_s=300, max_paths=100000))
     # an older candle recomputed through calculate_index between the batch part and the live part of the stream
     for name, kw, n, k in (("RSI", dict(period=2), 5, 4), ("VWAP", dict(), 6, 4), ("STOCH", dict(period=2, slow_period=2, smoothing_k=2), 8, 6), ("TSI", dict(period=2, smooth_period=2), 8, 6),
                            ("MACD", dict(fast_period=2, slow_period=3, signal_period=2), 8, 6), ("OBV", dict(), 6, 4)):
